@@ -1,7 +1,6 @@
 package harness
 
 import (
-	"runtime"
 	"crypto/sha256"
 	"encoding/binary"
 	"encoding/hex"
@@ -9,6 +8,7 @@ import (
 	"fmt"
 	"math/rand"
 	"os"
+	"runtime"
 	"sort"
 	"strings"
 	"testing"
@@ -64,7 +64,7 @@ type reqScn struct {
 	nrep  int
 	last  []byte // last injected reply
 	lastP string
-	used  map[int]bool    // contexts a step has referred to
+	used  map[int]bool // contexts a step has referred to
 	rp    *hx.RecProto
 	el    time.Duration // virtual time elapsed (for the absolute "advto" steps of TLC-generated scenarios)
 }
